@@ -71,6 +71,9 @@ def main(tier):
                 return [e for e, pt in ((c['src'], c['raw'][0]), (c['dst'], c['raw'][-1])) if len(c['raw']) >= 2 and e['t'] == 1 and tuple(pt) not in pinpos]
             if t == 'pin-end-not-on-a-free-pin-of-its-class':
                 offenders = [(c, e) for c in x['conns'] for e in off_pin_ends(c)]
+                # ends that are not on a pin OF THEIR CLASS (the point may be another class's pin, e.g. a centre pin at the shape centre)
+                offenders2 = [(c, e) for c in x['conns'] if len(c['raw']) >= 2 for e, pt in ((c['src'], c['raw'][0]), (c['dst'], c['raw'][-1]))
+                              if e['t'] == 1 and tuple(pt) not in {tuple(q['p']) for q in x['pins'] if q['s'] == e['s'] and q['c'] == e['c']}]
                 if any(c['src']['t'] == 1 and c['dst']['t'] == 1 and c['src']['s'] == c['dst']['s'] for c in x['conns']):
                     key += ':a-connector-joins-two-pins-of-one-shape'
                 elif any(on_old_checkpoint(c) for c in x['conns']):
@@ -81,11 +84,22 @@ def main(tier):
                     key += ':class-has-a-pin-inside-its-shape'
                 elif offenders and all(c['id'] in ever_cp for c, e in offenders):
                     key += ':connector-with-checkpoints'
+                elif offenders2 and all(len(c['raw']) == 2 and any(z[0] == e['s'] and (tuple(c['raw'][0]) == ((z[1] + z[3]) // 2, (z[2] + z[4]) // 2) or tuple(c['raw'][-1]) == ((z[1] + z[3]) // 2, (z[2] + z[4]) // 2))
+                                                                     for z in x['shapes']) for c, e in offenders2):
+                    # (class name only) the library found no route at all -- the pin is walled in by a touching shape or the other end lies in a
+                    # buffered outline -- and drew the straight line from the centre of the shape instead
+                    key += ':no-route-found:straight-line-from-the-shape-centre'
             if t == 'checkpoints-not-visited-in-order':
                 def on_inside_pin(e):
                     return e['t'] == 1 and any(q['s'] == e['s'] and q['c'] == e['c'] and strictly_inside(q) for q in x['pins'])
                 if any(c.get('cps') and (on_inside_pin(c['src']) or on_inside_pin(c['dst'])) for c in x['conns']):
                     key += ':connector-attached-to-a-pin-inside-its-shape'
+                else:
+                    def visits(c):
+                        return all(any(abs(p[0] - cp[0]) <= 2 and abs(p[1] - cp[1]) <= 2 for p in c['raw']) for cp in c['cps'])
+                    missing = [c for c in x['conns'] if c.get('cps') and not visits(c)]
+                    if missing and all(len(c['raw']) == 2 for c in missing):
+                        key += ':no-route-found:straight-line-between-the-ends'
             vd.violation(key, '%s after op %s of history %s (mode=%d buf=%d): %s' % (t, op, hists[hi], x['mode'], x['buf'], json.dumps(brief)[:900]),
                          {'ops': hists[hi], 'mode': x['mode'], 'opts': x['opts'], 'after_op': op, 'snapshot': brief})
     ev.cov['evaluations'] = len(recs)
